@@ -357,6 +357,36 @@ CHECKS = {
         "EnumerateClasses(IncludeClassOrigin=True) delivering no class_origin is reported "
         "as observation only",
         "DESIGN.md 4-C12", "classmodel"),
+    "C17": (
+        "TLA+ requirement machine over request classes plus a code-shaped "
+        "transcription of do_POST / send_http_error and of the handler-thread, "
+        "queue and waiting-peer state, model-checked by TLC for every request "
+        "class and all short request sequences; a real WBEMListener driven "
+        "with raw socket bytes on TLC-enumerated classes, TLC-simulated and "
+        "seeded sequences and byte-level mutants; every observed exchange "
+        "judged by TLC",
+        "TLC pushes all 294 912 request classes (verb x Accept x Accept-Charset "
+        "x Accept-Range x Content-Type x Content-Encoding x Content-Length x "
+        "body) through the pipeline transcribed from the code in statement "
+        "order and checks every clause of the statement (exactly one response, "
+        "no dropped connection, header syntax, no request-derived CR/LF, "
+        "admissible status, CIMError header, export response with the message "
+        "id, delivery), plus all sequences of 3-4 requests against handler "
+        "threads, queue and peers that keep a waiting connection open; the "
+        "shape of the code as read (unsanitised CIMErrorDetails, unchecked "
+        "Content-Length) and a non-threaded server are refuted. A real "
+        "listener on loopback is then sent the TLC-enumerated classes with <= 2 "
+        "deviations, TLC-simulated and seeded histories ending in a valid "
+        "indication, and seeded byte-level mutants; raw answers are projected "
+        "by an own HTTP reader and expat and each event is judged by TLC "
+        "against the requirement machine and compared with the pipeline model.",
+        "byte space decided per class with seeded sampling inside a class; "
+        "HTTP/1.x request lines only, no TLS, no Expect/Transfer-Encoding; "
+        "Content-Length 2^31..2^62 not driven; several confirmed defects "
+        "(header splitting via CIMErrorDetails, dropped/blocked connections "
+        "for bad Content-Length and non-Latin-1 version text) are reported "
+        "until fixed",
+        "DESIGN.md 4-C17", "listenerhttp"),
     "C10": (
         "TLA+ reference keyed map with set-valued status codes (RepoCore); "
         "code-shaped validation-order + dict/heap machine refinement in TLC; "
